@@ -8,7 +8,10 @@
 // copy), filtered by the REAL code, and compared (content, order, flag) with an independent reference
 // that never mutates anything: it selects the elements whose documented read predicate holds under the
 // given authorizer and builds the expected response from scratch.
+// Part 1b (c09_store_test.go): aliasing — filtering a response assembled from state-store objects must
+// not change what the store returns to the next reader.
 // Part 2 (expiry monitor, c09_expiry_test.go): a real ACLResolver over a fake backend.
+// Part 3 (c09_server_test.go): the same two clauses end-to-end on a real in-process server.
 package consul
 
 import (
@@ -258,12 +261,12 @@ func (r zvRef) svc(name, peer string) bool { return r.az.ServiceRead(name, zvCtx
 
 // svcOrNone: an empty service name denotes "no service" (node level check): nothing to require
 func (r zvRef) svcOrNone(name, peer string) bool { return name == "" || r.svc(name, peer) }
-func (r zvRef) session(node string) bool       { return r.az.SessionRead(node, zvCtx("")) == acl.Allow }
-func (r zvRef) key(k string) bool              { return r.az.KeyRead(k, zvCtx("")) == acl.Allow }
-func (r zvRef) intention(n string) bool        { return r.az.IntentionRead(n, zvCtx("")) == acl.Allow }
-func (r zvRef) query(n string) bool            { return r.az.PreparedQueryRead(n, zvCtx("")) == acl.Allow }
-func (r zvRef) aclRead() bool                  { return r.az.ACLRead(zvCtx("")) == acl.Allow }
-func (r zvRef) aclWrite() bool                 { return r.az.ACLWrite(zvCtx("")) == acl.Allow }
+func (r zvRef) session(node string) bool         { return r.az.SessionRead(node, zvCtx("")) == acl.Allow }
+func (r zvRef) key(k string) bool                { return r.az.KeyRead(k, zvCtx("")) == acl.Allow }
+func (r zvRef) intention(n string) bool          { return r.az.IntentionRead(n, zvCtx("")) == acl.Allow }
+func (r zvRef) query(n string) bool              { return r.az.PreparedQueryRead(n, zvCtx("")) == acl.Allow }
+func (r zvRef) aclRead() bool                    { return r.az.ACLRead(zvCtx("")) == acl.Allow }
+func (r zvRef) aclWrite() bool                   { return r.az.ACLWrite(zvCtx("")) == acl.Allow }
 
 // ---------------------------------------------------------------------------------------------
 // cases
@@ -412,6 +415,15 @@ type zvCaseWitness struct {
 
 // zvRunCase executes one (type, arrangement, authorizer) case.
 // zvRender: canonical rendering; a nil and an empty top-level list are the same response
+// zvSanityFail: something the monitor relies on did not work (not a statement about consul): the run
+// must end INCONCLUSIVE, which the floor on "harness_sanity_ok" enforces.
+var zvSanityBroken bool
+
+func zvSanityFail(run *core.Run, why string) {
+	zvSanityBroken = true
+	run.Inconclusive(why)
+}
+
 func zvRender(v any) string {
 	s := dump.Render(v)
 	if s == "&[]" {
@@ -455,7 +467,7 @@ func zvRunCase(run *core.Run, ty *zvType, emptyS string, es []zvElem, az acl.Aut
 	if panicked != nil {
 		msg := fmt.Sprint(panicked)
 		if strings.Contains(msg, "Unhandled type") {
-			run.Inconclusive("type table lists " + ty.name + " but Filter does not handle it: " + msg)
+			zvSanityFail(run, "type table lists "+ty.name+" but Filter does not handle it: "+msg)
 			return
 		}
 		run.Violation("C09:filter:"+ty.name+":panic", fmt.Sprintf("filter of %s panicked (%s) for arrangement %s under %s", ty.name, msg, core.JSON(es), zvAuthzID(az)), wit("panic: "+msg))
@@ -554,7 +566,7 @@ func zvStripFlag(s string) string {
 
 func TestZZVerifC09(t *testing.T) {
 	run := core.NewRun("C09", "exploration",
-		"filter: for each of the filterable response types (every case of aclfilter.Filter's type switch, FilterDirEnt, FilterTxnResults) ALL arrangements of up to 5 elements (4 for the multi-list types) over a per-type alphabet of readable/unreadable/peer/duplicate elements are enumerated under a fixed table authorizer (x all acl:read/acl:write combinations for ACL-dependent types), plus nested node/service/check structures; every arrangement is repeated under seed-derived random table authorizers (Allow/Deny/Default per (kind,name,peer)) and real compiled policy authorizers; the real filter output is compared (content, order, flag) with a from-scratch reference built from the documented read predicate; non-trivial = something removed or redacted and something kept, distinct by (type, arrangement, authorizer). expiry: real ACLResolver x {expired 1h, expired 1s, valid 1h, no expiry, expiring in real time while cached} x {policy, role, service identity} x {local, remote token} x {local, remote policies} x 4 down policies x 2 default policies x {cache TTL 0, 30s} x {RPC ok, token RPC failing, all RPC failing} x {cold, warm, stored token swapped for an expired copy}")
+		"filter: for each of the filterable response types (every case of aclfilter.Filter's type switch, FilterDirEnt, FilterTxnResults) ALL arrangements of up to 5 elements (4 for the multi-list types) over a per-type alphabet of readable/unreadable/peer/duplicate elements are enumerated under a fixed table authorizer (x all acl:read/acl:write combinations for ACL-dependent types), plus nested node/service/check structures; every arrangement is repeated under seed-derived random table authorizers (Allow/Deny/Default per (kind,name,peer)) and real compiled policy authorizers; the real filter output is compared (content, order, flag) with a from-scratch reference built from the documented read predicate; non-trivial = something removed or redacted and something kept, distinct by (type, arrangement, authorizer). expiry: real ACLResolver x {expired 1h, expired 1s, valid 1h, no expiry, expiring in real time while cached} x {policy, role, service identity} x {local, remote token} x {local, remote policies} x 4 down policies x 2 default policies x {cache TTL 0, 30s} x {RPC ok, token RPC failing, all RPC failing} x {cold, warm, stored token swapped for an expired copy}. aliasing: 32 state-store queries x 40 (thorough 400) authorizers: query, filter, re-query must return the unfiltered data again. server tier: a real single-node server; 22 read endpoints x 17 (thorough 121) tokens created through the ACL endpoints from random rule text (plus the anonymous token): the reply must equal the management reply reduced by the documented predicate under an independently compiled authorizer, flag exact and masked for anonymous; tokens written through raft with a past or imminent ExpirationTime must be refused by every endpoint")
 	run.Assume("CE build: namespaces/partitions play no role; the peer name of the element's own authorization context is the only context",
 		"within one catalog node, the node, its services and its checks carry the same peer name (as the state store produces them)",
 		"an authorizer decision other than Allow (Deny or Default) means not readable",
@@ -567,7 +579,7 @@ func TestZZVerifC09(t *testing.T) {
 	// ---- the table must cover the type switch of the tree under test
 	cases, err := zvSwitchCases()
 	if err != nil {
-		run.Inconclusive("cannot read the type switch of aclfilter.Filter: " + err.Error())
+		zvSanityFail(run, "cannot read the type switch of aclfilter.Filter: "+err.Error())
 	} else {
 		have := map[string]bool{}
 		for _, ty := range tys {
@@ -575,16 +587,28 @@ func TestZZVerifC09(t *testing.T) {
 		}
 		for _, c := range cases {
 			if !have[c] {
-				run.Inconclusive("aclfilter.Filter handles " + c + " which the monitor's type table does not list")
+				zvSanityFail(run, "aclfilter.Filter handles "+c+" which the monitor's type table does not list")
+			} else {
+				run.Count("type_switch_cases_in_table")
 			}
 		}
 		run.Extra("type_switch_cases", len(cases))
+		run.Floor("type_switch_cases_in_table", len(cases))
 	}
 	run.Extra("types_in_table", len(tys))
 
 	nRandom := core.N(2, 12) // random table authorizers per arrangement
 	nPolicy := core.N(1, 8)  // compiled policy authorizers per arrangement
+	// VERIF_C09_PART (sensitivity testing only; never set by ./check): restricts the run to some parts.
+	// The coverage floors of the skipped parts then make the run INCONCLUSIVE, never a pass.
+	part := func(name string) bool {
+		p := os.Getenv("VERIF_C09_PART")
+		return p == "" || strings.Contains(","+p+",", ","+name+",")
+	}
 	for ti := range tys {
+		if !part("filter") {
+			break
+		}
 		ty := &tys[ti]
 		arr := zvSequences(ty.alpha, ty.minLen, ty.maxLen)
 		if ty.extra != nil {
@@ -612,7 +636,7 @@ func TestZZVerifC09(t *testing.T) {
 			for k := 0; k < nPolicy; k++ {
 				az, err := zvRandomPolicyAuthz(trng, fmt.Sprintf("%d.%d.%d", ti, ai, k))
 				if err != nil {
-					run.Inconclusive("policy generator: " + err.Error())
+					zvSanityFail(run, "policy generator: "+err.Error())
 					continue
 				}
 				zvRunCase(run, ty, emptyS, es, az)
@@ -633,12 +657,23 @@ func TestZZVerifC09(t *testing.T) {
 	run.Floor("filter_cases", 50000)
 
 	run.Extra("filter_part_wall_s", int(time.Since(t0).Seconds()))
-	zvStoreAliasing(run, rng.Fork(555))
+	if arng := rng.Fork(555); part("store") {
+		zvStoreAliasing(run, arng)
+	}
 	run.Floor("aliasing_cases", 1000)
 	run.Floor("aliasing_cases_filtered", 500)
 	run.FloorDistinct("aliasing-queries", 30)
 	erng, srng := rng.Fork(777), rng.Fork(888)
-	zvServerTier(t, run, srng, func() { zvExpiry(run, erng) })
+	expiry := func() {
+		if part("expiry") {
+			zvExpiry(run, erng)
+		}
+	}
+	if part("server") {
+		zvServerTier(t, run, srng, expiry)
+	} else {
+		expiry()
+	}
 	run.Floor("server_cases", 300)
 	run.Floor("server_cases_mixed", 50)
 	run.Floor("server_anonymous_cases", 20)
@@ -652,6 +687,10 @@ func TestZZVerifC09(t *testing.T) {
 	run.Floor("valid_token_honoured", 1000)
 	run.FloorDistinct("expiry-dimensions", 60)
 
+	if !zvSanityBroken {
+		run.Count("harness_sanity_ok")
+	}
+	run.Floor("harness_sanity_ok", 1)
 	if run.Finish() == 1 {
 		t.Fail()
 	}
